@@ -11,13 +11,14 @@ OPTS = {'quick': {'hash_order': 'insertion'}, 'thorough': {'hash_order': 'insert
 BOUNDS = {
     'quick': 'relation mode: <= 3 x 3 words with the word-match relation a symbolic Boolean matrix (covers every equality '
              'pattern, repeated words, case folding); text mode: <= 3 x 3 one-letter words over symbolic ASCII letters with '
-             'ignore_case symbolic, plus layouts with leading/trailing/multiple ASCII whitespace; edited_words on the same texts',
+             'ignore_case symbolic, plus layouts with leading/trailing/multiple ASCII whitespace; words mode: 1-2 words of 1-2 letters per side over {a, A, b} or '
+             '{ä, Ä, ö} (a word can be a proper prefix of another; non-ASCII case folding); edited_words on the same texts',
     'thorough': 'same with <= 4 x 4 words (relation mode) and 3 x 4 (text mode)',
 }
-OUTSIDE = ['non-ASCII whitespace inside texts (the code splits on ASCII whitespace only)', 'words longer than one '
-           'character in text mode (word comparison is delegated to str equality / to_lowercase)', 'more words']
+OUTSIDE = ['non-ASCII whitespace inside texts (the code splits on ASCII whitespace only)', 'words longer than two '
+           'characters; alphabets other than ASCII letters and the Latin-1 letters ä Ä ö (case folding modelled per feasible code point)', 'more words']
 ASSUMPTIONS = ['HashSet iteration order fixed to insertion order in edited_words (its results are sets, compared as sets)',
-               'str::to_lowercase modelled on ASCII']
+               'str::to_lowercase: ASCII formula, or the Unicode simple mapping of each feasible code point of a small alphabet']
 KNOWN_MATCHERS = {}
 LETTERS = 'abcdefgh'
 
@@ -33,8 +34,70 @@ def shapes(tier):
         for lb in range((nt if tier == 'quick' else 4) + 1):
             for layout in (0, 1):
                 out.append({'mode': 'text', 'la': la, 'lb': lb, 'layout': layout})
+    # words mode: words of 1-2 letters over a small cased alphabet (ASCII: a A b, Latin-1: ä Ä ö), so that one word can
+    # be a proper prefix / suffix of another and case folding goes beyond ASCII
+    lays = [([1], [2]), ([2], [2]), ([1, 1], [1, 2]), ([1, 2], [1, 1]), ([2, 1], [1, 2]), ([1, 1], [2])]
+    if tier != 'quick':
+        lays += [([1, 2], [2, 1]), ([2, 2], [2, 2]), ([1, 1, 1], [1, 2]), ([1, 2], [1, 1, 2])]
+    for wa, wb in lays:
+        for alpha in ('ascii', 'latin1'):
+            out.append({'mode': 'words', 'wa': wa, 'wb': wb, 'la': len(wa), 'lb': len(wb), 'alpha': alpha})
     out.sort(key=lambda s: -(s['la'] * s['lb']))
     return out
+
+
+ALPHA = {'ascii': (1, [0x61, 0x41, 0x62]), 'latin1': (2, [0xE4, 0xC4, 0xF6])}
+
+
+def run_words(ctx, shape, opts):
+    m = ctx.m
+    w, alpha = ALPHA[shape['alpha']]
+
+    def words(name, lens):
+        chars = ctx.in_string(name, [w] * sum(lens)).chars()
+        for c in chars:
+            if not isinstance(c.v, int):
+                ctx.assume(z3.Or([c.v == v for v in alpha]))
+        out, k = [], 0
+        for n in lens:
+            out.append(chars[k:k + n])
+            k += n
+        return out
+    wa = words('a_words', shape['wa'])
+    wb = words('b_words', shape['wb'])
+    la, lb = len(wa), len(wb)
+    ic = ctx.branch(ctx.in_bool('ignore_case'))
+    a = mkstr(ctx, layout_text(wa, 0))
+    b = mkstr(ctx, layout_text(wb, 0))
+    res = m.call('match_words', a, b, ic)
+    ctx.out('match', res)
+    low = {0x41: 0x61, 0xC4: 0xE4}
+
+    def lower(c):
+        if isinstance(c.v, int):
+            return Int(low.get(c.v, c.v), 'char')
+        t = c.v
+        for u, l in low.items():
+            t = z3.If(c.v == u, z3.BitVecVal(l, 32), t)
+        return Int(t, 'char')
+
+    def rel(i, j):
+        x, y = wa[i], wb[j]
+        if len(x) != len(y):
+            return False
+        if ic:
+            return ctx.branch(m.conj([m.eq(lower(p), lower(q)) for p, q in zip(x, y)]))
+        return ctx.branch(m.conj([m.eq(p, q) for p, q in zip(x, y)]))
+    check_matching(ctx, res, la, lb, rel, 'match_words')
+    res0 = m.call('match_words', a, b, False)
+    pairs0 = [(t.fields[0].v, t.fields[1].v) for t in m.peel(res0.fields[0]).items]
+    ew = m.call('edited_words', a, b)
+    ctx.out('edited', Tup([VecObj(sorted_set(ctx, ew.fields[0])), VecObj(sorted_set(ctx, ew.fields[1]))]))
+    ea = sorted(x.v for x in sorted_set(ctx, ew.fields[0]))
+    eb = sorted(x.v for x in sorted_set(ctx, ew.fields[1]))
+    ctx.require(ea == [i for i in range(la) if i not in [p[0] for p in pairs0]], 'edited_words: a-indices == complement')
+    ctx.require(eb == [j for j in range(lb) if j not in [p[1] for p in pairs0]], 'edited_words: b-indices == complement')
+    ctx.sample = {'mode': 'words', 'wa': shape['wa'], 'wb': shape['wb'], 'ignore_case': ic, 'pairs': pairs0}
 
 
 def lcs_len(la, lb, rel):
@@ -100,6 +163,8 @@ def run(ctx, shape, opts):
         check_matching(ctx, res, la, lb, lambda i, j: ctx.branch(M[i][j]), 'match_words_with')
         ctx.sample = {'mode': 'rel', 'la': la, 'lb': lb, 'relation_queries': len(calls)}
         return
+    if shape['mode'] == 'words':
+        return run_words(ctx, shape, opts)
     # text mode: real closures of match_words
     wa = ctx.in_string('a_words', [1] * la).chars()
     wb = ctx.in_string('b_words', [1] * lb).chars()
@@ -144,8 +209,25 @@ def sorted_set(ctx, mp):
 
 # ------------------------------------------------------------------ native side
 
+def _split_words(flat, lens):
+    out, k = [], 0
+    for n in lens:
+        out.append(list(flat[k:k + n]))
+        k += n
+    return out
+
+
 def _texts(shape, inputs):
     la, lb = shape['la'], shape['lb']
+    if shape['mode'] == 'words':
+        def join(ws):
+            out = []
+            for k, w in enumerate(ws):
+                if k:
+                    out.append(0x20)
+                out.extend(w)
+            return out
+        return join(_split_words(inputs['a_words'], shape['wa'])), join(_split_words(inputs['b_words'], shape['wb']))
 
     def lay(words, layout):
         out = []
@@ -214,7 +296,11 @@ def concrete_check(native, inputs, shape):
         return _check_matching_py(o['match'], la, lb, lambda i, j: M[i][j], 'match_words_with')
     wa, wb = inputs['a_words'], inputs['b_words']
     ic = bool(inputs['ignore_case'])
-    low = lambda c: c + 32 if 0x41 <= c <= 0x5A else c
+    if shape['mode'] == 'words':
+        wa, wb = _split_words(wa, shape['wa']), _split_words(wb, shape['wb'])
+        low = lambda w: [ord(chr(c).lower()) for c in w]
+    else:
+        low = lambda c: c + 32 if 0x41 <= c <= 0x5A else c
     rel = (lambda i, j: low(wa[i]) == low(wb[j])) if ic else (lambda i, j: wa[i] == wb[j])
     failed = _check_matching_py(o['match'], la, lb, rel, 'match_words')
     a, b = _texts(shape, inputs)
@@ -232,7 +318,13 @@ def _text_case(a, b, ic, layout=0):
             {'a_words': [ord(c) for c in a], 'b_words': [ord(c) for c in b], 'ignore_case': ic})
 
 
-FIXED_CASES = [_text_case('abc', 'abc', False), _text_case('abc', 'Abd', True), _text_case('aba', 'bab', False, 1),
+def _words_case(a, b, ic, alpha):
+    return ({'mode': 'words', 'wa': [len(w) for w in a], 'wb': [len(w) for w in b], 'la': len(a), 'lb': len(b), 'alpha': alpha},
+            {'a_words': [ord(c) for w in a for c in w], 'b_words': [ord(c) for w in b for c in w], 'ignore_case': ic})
+
+
+FIXED_CASES = [_words_case(['a', 'b'], ['a', 'bA'], False, 'ascii'), _words_case(['Ää'], ['ää'], True, 'latin1'),
+               _words_case(['ä', 'Ä'], ['Ä', 'äö'], True, 'latin1'), _text_case('abc', 'abc', False), _text_case('abc', 'Abd', True), _text_case('aba', 'bab', False, 1),
                _text_case('', 'ab', False), _text_case('ab', '', True, 1)]
 
 
@@ -244,6 +336,11 @@ def random_case(rng):
             for j in range(lb):
                 inp['m_%d_%d' % (i, j)] = rng.random() < 0.4
         return ({'mode': 'rel', 'la': la, 'lb': lb}, inp)
+    if rng.random() < 0.4:
+        alpha = rng.choice(['ascii', 'latin1'])
+        pool = 'aAb' if alpha == 'ascii' else 'äÄö'
+        mk = lambda: [''.join(rng.choice(pool) for _ in range(rng.randint(1, 2))) for _ in range(rng.randint(1, 3))]
+        return _words_case(mk(), mk(), rng.random() < 0.5, alpha)
     pool = 'abAB'
     a = ''.join(rng.choice(pool) for _ in range(rng.randint(0, 4)))
     b = ''.join(rng.choice(pool) for _ in range(rng.randint(0, 4)))
